@@ -9,10 +9,11 @@ C10_INV = ["FailedOnce", "AllFailed"]
 C10_PROPS = ["NothingAfterDeath", "SendRefusedWhenDead"]
 WITNESSES = {"C09": ["Witness_LateResponse", "Witness_Grow", "Witness_SessionOpen", "Witness_Busy", "Witness_StaleTimeout"],
              "C10": ["Witness_ErroredTwoAtOnce", "Witness_Refused", "Witness_SessionFailed", "Witness_FailWhileEncoding",
-                     "Witness_BadAnswerWithOthersPending"]}
+                     "Witness_BadAnswerWithOthersPending", "Witness_TwoDefunctsRace"]}
 
 C10_VARS = {"errs", "cperr", "defunct", "closed"}
-DEATH_ACTIONS = {"SocketError", "Close", "RespondCorrupt", "RespondProtoError"}
+DEATH_ACTIONS = {"SocketError", "Close", "RespondCorrupt", "RespondProtoError", "HbDefunctBegin", "SocketErrorDuringDefunct",
+                 "HbDefunctFinish"}
 
 
 def owner_of(divergence, dead_before):
@@ -48,7 +49,7 @@ def close_fails_sessions(rc):
 
 def run(ctx, pid):
     from harness.replay import connection as rc
-    consts = {"BadAnswers": True, "AnyId": False, "MaxId": 2, "InitFree": 1, "Reqs": {1, 2, 3}, "CPReqs": set() if ctx.quick else {3}, "MaxPages": 2,
+    consts = {"HbDefunct": True, "BadAnswers": True, "AnyId": False, "MaxId": 2, "InitFree": 1, "Reqs": {1, 2, 3}, "CPReqs": set() if ctx.quick else {3}, "MaxPages": 2,
               "CloseFailsSessions": True, "Busy": not ctx.quick}
     inv = C09_INV + C10_INV
     # the intended design (close() fails paging sessions too) must satisfy the properties
@@ -96,7 +97,7 @@ def run(ctx, pid):
     ctx.note("coverage_zero_actions", zero)
 
     if not ctx.quick:
-        big = {"BadAnswers": True, "AnyId": False, "MaxId": 3, "InitFree": 2, "Reqs": {1, 2, 3, 4}, "CPReqs": {3, 4}, "MaxPages": 2, "CloseFailsSessions": intended, "Busy": True}
+        big = {"HbDefunct": True, "BadAnswers": True, "AnyId": False, "MaxId": 3, "InitFree": 2, "Reqs": {1, 2, 3, 4}, "CPReqs": {3, 4}, "MaxPages": 2, "CloseFailsSessions": intended, "Busy": True}
         bcfg = tlc.write_cfg(os.path.join(ctx.scratch, "conn_big.cfg"), constants=big, invariants=inv,
                              properties=C10_PROPS, deadlock=False)
         bres = tlc.check_model("Connection", bcfg, ctx.scratch, timeout=3000)
@@ -137,6 +138,7 @@ def run(ctx, pid):
         "Witness_ErroredTwoAtOnce": lambda c, n: fnv(n["st"]).count("errored") >= 2,
         "Witness_Refused": lambda c, n: "refused" in fnv(n["st"]),
         "Witness_SessionFailed": lambda c, n: any(x > 0 for x in fnv(n["cperr"])),
+        "Witness_TwoDefunctsRace": lambda c, n: n["dfn"] == "begun2" and len(fnv(n["cps"])) > 0,
         "Witness_BadAnswerWithOthersPending": lambda c, n: "failed" in fnv(n["st"]) and "errored" in fnv(n["st"]),
         "Witness_FailWhileEncoding": lambda c, n: any(p == "encode" and t == "errored" for p, t in zip(fnv(n["ph"]), fnv(n["st"]))),
     }
@@ -183,8 +185,8 @@ def run(ctx, pid):
     ctx.note("behaviours_replayed", replayed)
 
     # ---- code -> spec: recorded random runs validated by TLC against Trace_Connection.tla
-    tconsts = {"BadAnswers": True, "AnyId": True, "MaxId": 3, "InitFree": 1, "Reqs": {1, 2, 3, 4}, "CPReqs": {4}, "MaxPages": 3} if ctx.quick else \
-        {"BadAnswers": True, "AnyId": True, "MaxId": 3, "InitFree": 2, "Reqs": {1, 2, 3, 4, 5}, "CPReqs": {2, 4}, "MaxPages": 3}
+    tconsts = {"HbDefunct": False, "BadAnswers": True, "AnyId": True, "MaxId": 3, "InitFree": 1, "Reqs": {1, 2, 3, 4}, "CPReqs": {4}, "MaxPages": 3} if ctx.quick else \
+        {"HbDefunct": False, "BadAnswers": True, "AnyId": True, "MaxId": 3, "InitFree": 2, "Reqs": {1, 2, 3, 4, 5}, "CPReqs": {2, 4}, "MaxPages": 3}
     tconsts["CloseFailsSessions"] = intended
     tconsts["Busy"] = True
     n_tr = 300 if ctx.quick else 4000
@@ -207,7 +209,8 @@ def run(ctx, pid):
             ctx.violation("invariant %s violated in a state of a recorded execution" % tres.invariant,
                           replay={"trace": [dict(s) for _, s in tres.trace()][-3:]}, signature="trace-inv:%s" % tres.invariant)
         return
-    if prog[good] != 4 or prog[good + 1] > len(bad2):
+    victim_ok = prog[traces.index(victim)] == len(victim) + 1
+    if victim_ok and (prog[good] != 4 or prog[good + 1] > len(bad2)):     # judged only on a victim the spec accepts
         raise tlc.MachineryError("binding self-test failed: corrupted/dropped trace accepted (%s, %s)" % (prog[good], prog[good + 1]))
     ctx.note("binding_selftest", {"corrupted_rejected": 1, "dropped_rejected": 1})
     accepted = 0
